@@ -477,6 +477,15 @@ func run(c *mon.Ctx) {
 					if fb, err := packet.FromBytes(a[:]); err == nil && fb != nil {
 						arg = fb
 					}
+				case 3:
+					// FromBytes hands a packet back together with the error when only the header is refused: it is
+					// the caller's packet like any other
+					bad := a
+					bad[0] = 0x48
+					if fb, _ := packet.FromBytes(bad[:]); fb != nil {
+						arg = fb
+						c.Count("helper.argument_from_a_refused_FromBytes")
+					}
 				}
 			}
 			before := *arg
